@@ -310,11 +310,13 @@ func (v *queue_[V]) RemoveAll() {
 	// queue cannot be stranded on a stale channel, a token never outlives its
 	// value, and no unsynchronized write races with AddValue or RemoveHead.
 	for {
+		verifYield(9, v)
 		select {
 		case _, ok := <-v.available_:
 			if !ok {
 				return // The queue is closed and has been drained.
 			}
+			verifYield(10, v)
 			v.mutex_.Lock()
 			v.values_.RemoveValue(1)
 			v.mutex_.Unlock()
